@@ -223,6 +223,29 @@ func removeSSTable(tablePath string) error {
 	return os.RemoveAll(tablePath)
 }
 
+// removeWalFilesOldestFirst deletes the WAL directory after its records were flushed into a table. The files have to go
+// oldest first: whatever a stopped removal leaves behind is then a suffix of the log, and replaying a suffix over the
+// table that already contains the whole log changes nothing. In directory order a newer file can disappear before an
+// older one, and the next recovery would replay outdated records over that table.
+func removeWalFilesOldestFirst(walBasePath string) error {
+	entries, err := os.ReadDir(walBasePath)
+	if err != nil {
+		return err
+	}
+
+	// os.ReadDir returns the entries sorted by filename, the WAL file names are zero padded ascending numbers
+	for _, entry := range entries {
+		if !entry.IsDir() {
+			err = os.Remove(filepath.Join(walBasePath, entry.Name()))
+			if err != nil {
+				return err
+			}
+		}
+	}
+
+	return os.RemoveAll(walBasePath)
+}
+
 func (db *DB) replayAndSetupWriteAheadLog() error {
 	walBasePath := filepath.Join(db.basePath, WriteAheadFolder)
 	err := os.MkdirAll(walBasePath, 0700)
@@ -313,7 +336,7 @@ func (db *DB) replayAndSetupWriteAheadLog() error {
 		log.Printf("done replaying WAL in %v with %d records\n", elapsedDuration, numRecords)
 	}
 
-	err = os.RemoveAll(walBasePath)
+	err = removeWalFilesOldestFirst(walBasePath)
 	if err != nil {
 		return err
 	}
